@@ -20,9 +20,21 @@ def regen_builtins(c, exe_h):
     return True
 
 
+def with_big_stack(exe_m):
+    """the extracted evaluator is not tail recursive: deep (fuel-bounded) recursion needs more than the default 8 MB stack"""
+    sh = exe_m + ".sh"
+    open(sh, "w").write('#!/bin/sh\nulimit -s unlimited 2>/dev/null || ulimit -s 4000000 2>/dev/null || ulimit -s 1000000 2>/dev/null\nexec "%s"\n' % exe_m)
+    os.chmod(sh, 0o755)
+    return sh
+
+
 def judge(c, exe_m, cases, stream):
     """returns (mismatches, nskip, ntotal, skip reasons)"""
-    lines, outs = V.run_model(exe_m, cases)
+    try:
+        lines, outs = V.run_model(with_big_stack(exe_m), cases)
+    except RuntimeError as e:
+        c.broken_correspondence(stream, None, "model run failed: %s" % e)
+        return [], 0, 0, {}
     if len(lines) != len(outs):
         c.broken_correspondence(stream, None, "model produced %d verdicts for %d cases" % (len(outs), len(lines)))
         return [], 0, 0, {}
